@@ -299,3 +299,66 @@ impl CacheHandler {
         out_result
     }
 }
+
+/// Verification hook: drive the cache's own insert / lookup / expire code
+/// without a network (under tokio's paused clock).
+#[cfg(erbium_verif)]
+pub mod verif {
+    use super::*;
+
+    pub struct VerifCache {
+        handler: CacheHandler,
+    }
+
+    impl Default for VerifCache {
+        fn default() -> Self {
+            Self::new()
+        }
+    }
+
+    impl VerifCache {
+        pub fn new() -> Self {
+            VerifCache {
+                handler: CacheHandler {
+                    next: outquery::OutQuery::new(),
+                    cache: Arc::new(RwLock::new(Cache::new())),
+                },
+            }
+        }
+
+        fn key(query: &dnspkt::DNSPkt) -> CacheKey {
+            CacheKey {
+                qname: query.question.qdomain.clone(),
+                qtype: query.question.qtype,
+                edns_do: query.edns_do,
+                cd: query.cd,
+            }
+        }
+
+        /// What handle_query does with a freshly resolved reply.
+        pub async fn insert(&self, query: &dnspkt::DNSPkt, reply: &dnspkt::DNSPkt) -> Duration {
+            let out_result = Ok(reply.clone());
+            let expiry = self.handler.calculate_expiry(&out_result);
+            if expiry > Duration::from_secs(0) {
+                let mut rwcache = self.handler.cache.write().await;
+                self.handler
+                    .insert_cache_entry(&mut rwcache, Self::key(query), &out_result, expiry);
+            }
+            expiry
+        }
+
+        /// What handle_query does before resolving.
+        pub async fn lookup(&self, query: &dnspkt::DNSPkt) -> Option<Result<dnspkt::DNSPkt, String>> {
+            let rocache = self.handler.cache.read().await;
+            CacheHandler::get_entry(&rocache, &Self::key(query), Instant::now())
+                .map(|r| r.map_err(|e| e.to_string()))
+        }
+
+        /// One run of the expiry sweep; returns the number of entries left.
+        pub async fn expire(&self) -> usize {
+            let mut rwcache = self.handler.cache.write().await;
+            CacheHandler::expire(&mut rwcache, Instant::now());
+            rwcache.len()
+        }
+    }
+}
